@@ -171,3 +171,39 @@ func (s *PersistentHybridIndex) VerifSegmentIDs() (ids []uint64, cached []bool) 
 
 // VerifMemtableCount returns the number of memtables in the queue (frozen + active).
 func (s *PersistentHybridIndex) VerifMemtableCount() int { return s.memtableQueue.Count() }
+
+// VerifHNSWNode is one vertex of an HNSW graph.
+type VerifHNSWNode struct {
+	ID     uint32
+	Level  int
+	Vector []float32
+	Edges  [][]uint32
+}
+
+// VerifHNSWState is a read-only structural snapshot of an HNSW index.
+type VerifHNSWState struct {
+	EntryPoint uint32
+	MaxLevel   int
+	Nodes      []VerifHNSWNode // sorted by ID
+	Deleted    []uint32
+}
+
+// VerifHNSWSnapshot copies the graph of an HNSW index.
+func VerifHNSWSnapshot(idx *HNSWIndex) VerifHNSWState {
+	idx.mu.RLock()
+	defer idx.mu.RUnlock()
+	st := VerifHNSWState{EntryPoint: idx.entryPoint, MaxLevel: idx.maxLevel, Deleted: idx.deletedNodes.ToArray()}
+	for id, n := range idx.nodes {
+		edges := make([][]uint32, len(n.Edges))
+		for i, e := range n.Edges {
+			edges[i] = append([]uint32(nil), e...)
+		}
+		st.Nodes = append(st.Nodes, VerifHNSWNode{ID: id, Level: n.Level, Vector: n.Vector(), Edges: edges})
+	}
+	for i := 1; i < len(st.Nodes); i++ {
+		for j := i; j > 0 && st.Nodes[j-1].ID > st.Nodes[j].ID; j-- {
+			st.Nodes[j-1], st.Nodes[j] = st.Nodes[j], st.Nodes[j-1]
+		}
+	}
+	return st
+}
